@@ -170,7 +170,7 @@ func (e *Env) CutAt(at ssa.Instruction, pred func(Fact) bool, assume []Fact) ([]
 			}
 		}
 	}
-	ef := e.EdgeFacts()
+	ef := e.EdgeFactsUnder(assume)
 	cut := map[edge]bool{}
 	if r, ok := at.(*ssa.Return); ok && isSuccessReturn(r) {
 		cut = errorEdges(r) // only for a return that may succeed: an error exit is reached exactly through those edges
